@@ -65,12 +65,22 @@ def binds (s : Sig) : PyVal → Bool
     | Option.none => false
   | _ => false
 
-/-- What a body does once it runs.  `isTypeError` / `isAttributeError`: whether the raised class is
-    (a subclass of) `TypeError` / `AttributeError` — the two `except` clauses of `_dispatch` that are
-    not catch-alls test exactly these. -/
+/-- What a call does once the callable has been entered.  `isTypeError` / `isAttributeError`: whether the
+    raised class is (a subclass of) `TypeError` / `AttributeError` — the two `except` clauses of
+    `_dispatch` that are not catch-alls test exactly these.
+
+    `depth` is an *input* of the behaviour: the number of traceback entries below the frame that made
+    the call (for a registered callable: below the frame of `_dispatch`), i.e. how many times `tb_next`
+    can be followed from `sys.exc_info()[2]` in the handler.
+      * `0` — the exception carries no frame of the callee: it comes out of a C-implemented callable
+        (a registered builtin such as `len`, `functools.partial` rejecting its arguments, …); this is
+        also what a failure of the call itself (binding, non-callable object) looks like;
+      * `1` — raised in the callable's own Python frame (`raise`, `"x" + n`, `len(5)` in the body);
+      * `≥ 2` — raised in a function the body called, or behind a decorator.
+    `_dispatch` looks at it in exactly one place: `sys.exc_info()[2].tb_next is not None` ⇔ `depth ≠ 0`. -/
 inductive CallOutcome where
   | ret (v : PyVal)
-  | raised (cls : String) (msg : String) (isTypeError : Bool) (isAttributeError : Bool)
+  | raised (cls : String) (msg : String) (isTypeError : Bool) (isAttributeError : Bool) (depth : Nat)
 deriving Repr, Inhabited
 
 /-- A registered function or callable attribute; `body` receives the `params` value of the request
@@ -82,13 +92,19 @@ structure Callable where
 /-- A function of `(method, params)`: an instance's `_dispatch` or a custom dispatch function. -/
 abbrev DispatchFn := PyVal → PyVal → CallOutcome
 
-/-- An attribute of the registered instance: possibly callable, with its own public/private attributes. -/
+/-- An attribute of the registered instance: possibly callable, with its own public/private attributes
+    (`node none …` is an attribute that is neither callable nor `None`: a namespace, a number, …);
+    `noneValue` is an attribute bound to `None` — `_dispatch` tests the resolved object with
+    `func is not None`, so it takes such an attribute for an unknown method.  `None` has no attribute
+    whose name does not start with an underscore, so nothing resolves below it. -/
 inductive Attr where
   | node (callable : Option Callable) (children : List (String × Attr))
+  | noneValue
 
 namespace Attr
-def callable : Attr → Option Callable | .node c _ => c
-def children : Attr → List (String × Attr) | .node _ ch => ch
+def callable : Attr → Option Callable | .node c _ => c | .noneValue => Option.none
+def children : Attr → List (String × Attr) | .node _ ch => ch | .noneValue => []
+def isNoneValue : Attr → Bool | .noneValue => true | .node _ _ => false
 end Attr
 
 /-- `resolve_dotted_attribute` walking the segments of `attr.split('.')`: a segment starting with `_`
